@@ -36,13 +36,16 @@ var printFuncs = [][2]string{
 	{"Sprintln", "sprintln"},
 }
 
-func fmtToBuiltin(ctx *importCtx, sel *ast.Ident, ref *ast.Expr) bool {
+func fmtToBuiltin(fctx *formatCtx, ctx *importCtx, sel *ast.Ident, ref *ast.Expr) bool {
 	if ctx.pkgPath == "fmt" {
 		for _, fns := range printFuncs {
 			if fns[0] == sel.Name || fns[1] == sel.Name {
 				name := fns[1]
 				if name == "println" {
 					name = "echo"
+				}
+				if _, o := fctx.scope.LookupParent(name, token.NoPos); o != nil {
+					return false // the program declares this name itself: keep fmt.Xxx
 				}
 				*ref = &ast.Ident{NamePos: sel.NamePos, Name: name}
 				return true
